@@ -53,3 +53,22 @@ claim('C10',
                   '_release_resources schedule a check; _check_pending_requests loop invariant (skipped waiters do not fit or a check '
                   'is pending; ghost g_ok: every callback invocation was for a fitting request with (manager, its stored copy)); '
                   'exit post = Inv_wait')
+
+claim('C12',
+      assumptions=[
+          A2,
+          A4 + ' -- for the targets\' hooks: start_work / end_work may request further work orders on the maintainer, nothing else '
+               '(rely of Maintainer); capacities and durations a target reports are >= 0',
+          'ghost field _g_in_use (updated exactly at the two statements that change _active_requests) stands for the summed '
+          'capacity of the orders in progress; that it equals the sum over the list is by construction (hand lemma + frame scan)',
+          'precondition of the FINISH_WORK handler (its order is in progress) rests on: the event is scheduled by _start_work_order '
+          'for an order in progress and orders leave _active_requests only in _finish_work_order (hand lemma + frame scan)',
+          'START_WORK events of one instant have equal time/priority/asset id: their execution order is the random tie-break of C01 '
+          'by design; what is proved is that selection and capacity reservation happen in request order',
+      ],
+      trusted=['A3: list append/pop(i)/remove, filtering comprehension, functools.partial'],
+      explanation='Maintainer representation invariant (capacity in use == capacity of active orders <= capacity, one order per '
+                  'target, no duplicate (target, tag), no startable order left waiting) proved for every entry point and across the '
+                  'hooks; try_working_requests loop invariant with ghost position maps (selection in queue order, the rest keeps '
+                  'its order, one START_WORK event per selected order); _start_work_order obtains duration, cost and start hook once '
+                  'each and schedules FINISH_WORK after exactly the reported duration; create_work_order returns accepted.')
